@@ -34,9 +34,7 @@ def interesting(tree):
 def run(pid, tier, seed):
     chk = framework.Check(pid, tier, seed)
     chk.rule = RULE
-    chk.partial = ("Lean proves the tight-reading soundness (no observed element sits at an Any position), the exact required/optional "
-                   "characterisation of merged TypedDict keys and well-formedness; the full lock-step witness statement "
-                   "(MT.C05.InferWitnessed) is stated but only evaluated (Lean `witnessed` on the model, Python oracle on the implementation)")
+    chk.partial = None      # the full witness statement is a theorem (MT.C05.inferWitnessed_holds)
     proof = framework.lean_check(pid)
     eng = ic.Engine(chk)
     quick = tier == "quick"
